@@ -1,1 +1,3 @@
-// shared helpers
+//! C12 (sequential and truncation halves): the log.
+pub mod alloc;
+pub mod logsub;
